@@ -113,7 +113,7 @@ func wConfig(prop, tier string) *Config {
 	switch prop {
 	case "C01":
 		ops := []string{"swap_in_p1_usdc_atom_D", "swap_in_p1_usdc_atom_L", "swap_in_p1_usdc_atom_XL", "swap_in_p1_atom_usdc_L", "swap_out_p1_usdc_atom_L", "swap_out_p1_atom_usdc_D", "join_p1_single_atom_t2",
-			"swap_in_p2_usdc_elys_L", "swap_in_p2_elys_usdc_D", "swap_out_p2_elys_usdc_L", "swap_in_2hop_elys_atom_L", "swap_out_2hop_atom_elys_L", "swap_batch_opposite_p1", "swap_in_samepool_p1_usdc_atom_usdc", "swap_in_samepool_p2_elys_usdc_elys", "swap_out_samepool_p2_usdc_elys_usdc", "feed_ext_liquidity_p1_deep", "feed_ext_liquidity_p1_thin",
+			"swap_in_p2_usdc_elys_L", "swap_in_p2_elys_usdc_D", "swap_out_p2_elys_usdc_L", "swap_in_2hop_elys_atom_L", "swap_out_2hop_atom_elys_L", "swap_batch_opposite_p1", "swap_in_samepool_p1_usdc_atom_usdc", "swap_in_samepool_p2_elys_usdc_elys", "swap_out_samepool_p2_usdc_elys_usdc", "feed_ext_liquidity_p1_deep", "feed_ext_liquidity_p1_thin", "exit_p1_single_uusdc_largest_accepted_lp1", "exit_p1_single_uatom_largest_accepted_lp1",
 			"join_p1_all_t1", "join_p1_single_usdc_t1", "join_p2_all_t1", "exit_p1_10pct_lp1", "exit_p1_single_atom_lp1", "exit_p2_allbut1_lp1",
 			"perp_open_long_t1", "perp_open_long_atomcoll_t1", "perp_open_short_t2", "perp_close_half_t1", "perp_close_full_t2", "perp_bot_close_all",
 			"llp_open_t1_x3", "llp_close_full_t1", "create_pool_lp1", "price_atom_3", "price_atom_8", "fee_tx_uatom", "fee_tx_uelys", "gap_1d", "donate_p1_atom", "donate_p2_usdc", "empty"}
@@ -223,7 +223,7 @@ func wConfig(prop, tier string) *Config {
 			"fee_tx_uusdc", "fee_tx_uatom", "fee_tx_uelys", "fee_tx_uatom_nofeed", "fee_tx_uelys_nofeed", "mc_claim_lp1", "claim_vesting_lp1", "vest_eden_lp1", "unstake_elys_lp1", "send_elys_to_burn_addr",
 			"price_atom_2", "price_atom_1", "price_atom_12", "nofeed", "nofeed_2d", "gap_1h", "gap_2d", "gap_8d", "gap_40d", "empty",
 			"ext_incentive_now_lp1", "ext_incentives_two_new_denoms_lp1", "swap_batch_opposite_p1", "llp_open_t1_x3_stoploss", "perp_open_long_t1_stoploss",
-			"estaking_withdraw_reward_lp1", "stake_eden_lp1", "tier_set_portfolio_t1", "feed_ext_liquidity_p1_deep", "feed_ext_liquidity_p1_thin", "feed_ext_liquidity_p1_depth1"}
+			"estaking_withdraw_reward_lp1", "stake_eden_lp1", "tier_set_portfolio_t1", "feed_ext_liquidity_p1_deep", "feed_ext_liquidity_p1_thin", "feed_ext_liquidity_p1_depth1", "exit_p1_single_uusdc_largest_accepted_lp1"}
 		cfg.Oracles = []*Oracle{OracleC18()}
 		cfg.BlockFailure = true
 		cfgOps := []string{}
